@@ -9,7 +9,7 @@ RULE = ('(a) allocator: random alloc/free histories (sizes 1-64, 1-150 steps qui
         'frees) on the real sim.Heap: after EVERY step the whole state (return value, chunks, released list, current_size, max_size) must equal the '
         'Lean list model, and an abstract set-of-live-intervals oracle checks overlap / tiling / coalescing / high-water mark on the real tables; '
         '(b) map: random circuits x capacity vectors (uniform, per line, below c_caps_min) x {c_reuse} x {strip_forks}: exact correspondence of the Lean '
-        'SimOps model with the real c_locs/c_caps/c_len and the Lean certificate checker MapIn.check on the REAL arrays; oracle: results at ports are '
+        'SimOps model with the real c_locs/c_caps/c_len, the Lean certificate checker MapIn.check on the REAL arrays and the hypotheses of simops_map_accepted (wfB, orderOKB, forksOKB, readsDrivenB: driver simopscert) on the real circuit and order; oracle: results at ports are '
         'independent of c_reuse for LogicSim (m=2,8) and WaveSim. distinct = history / (circuit, options, caps) descriptors')
 
 
@@ -159,6 +159,7 @@ def corr_map(ck, n, thorough=False):
         cs = map_case(ck.rng, thorough)
         c = pickle.loads(base64.b64decode(cs['circuit']))
         dump = circ.dump_net(c)
+        hyp_tag = 'simops-hyp:not-evaluated'
         try:
             ok, real, model, diff, so = simcorr.compare(c, cs['strip'], cs['reuse'], cs['caps'], cs['cmin'])
             if not ok:
@@ -167,12 +168,20 @@ def corr_map(ck, n, thorough=False):
             cert = map_cert(c, so, cs['strip'], cs['cmin'])
             if cert != 'ok':
                 ck.broken_tie('map certificate MapIn.check on the real arrays', cert, inp={k: v for k, v in cs.items() if k != 'circuit'} | {'net': dump})
+            # hypotheses of simops_map_accepted (theorem: the MODEL's map passes the certificate for all circuits) on the
+            # real circuit and the real topological order
+            order = ','.join(str(n.index) for n in c.topological_order())
+            hyp = common.run_driver([f'net {dump}', f"simopscert {int(cs['strip'])} {order}"])[1]
+            hyp_tag = 'simops-hyp:ok' if hyp == 'wf=true order=true forks=true reads=true' else 'simops-hyp:outside'
+            if hyp_tag != 'simops-hyp:ok' and 'wf=true order=true' not in hyp:
+                ck.broken_tie('hypotheses Net.wfB / orderOKB of simops_map_accepted on the real circuit and order', hyp,
+                              inp={k: v for k, v in cs.items() if k != 'circuit'} | {'net': dump})
             ok2, obs, exp = eval_case(cs)
         except Exception as ex:
             ok2, obs, exp = False, {'raised': f'{type(ex).__name__}: {ex}'[:300]}, None
         ck.case(key=('map', dump, str(cs['caps'])[:60], cs['strip'], cs['reuse']), nontrivial=len(c.lines) >= 4,
                 sample={k: v for k, v in cs.items() if k != 'circuit'} | {'net': dump},
-                tag=['map', f"strip:{cs['strip']}", f"reuse:{cs['reuse']}", 'caps:' + ('list' if isinstance(cs['caps'], list) else str(cs['caps'])), f"cmin:{cs['cmin']}"])
+                tag=['map', f"strip:{cs['strip']}", f"reuse:{cs['reuse']}", 'caps:' + ('list' if isinstance(cs['caps'], list) else str(cs['caps'])), f"cmin:{cs['cmin']}", hyp_tag])
         if not ok2:
             ck.violation('map-reuse', 'results at ports depend on c_reuse (live memory overwritten)', cs, obs, exp)
 
@@ -185,7 +194,7 @@ def run(ck):
     if ck.broken and not ck.violations:
         corr_heap(ck, nh * 4, steps); corr_map(ck, nm * 4, ck.tier == 'thorough')
     ck.assumptions += ['free() only of live chunk starts, sizes > 0 (Python raises KeyError otherwise)',
-                       'the map certificate MapIn.check is sound (map_certificate_sound, kernel-checked); that the real map passes it is evaluated per generated instance, not proved for all circuits']
+                       'the map certificate MapIn.check is sound (map_certificate_sound, kernel-checked); that the map of the Lean SimOps model passes it is a theorem for all circuits (simops_map_accepted, hypotheses wfB/orderOKB/forksOKB/readsDrivenB evaluated on every real circuit: tag simops-hyp); that the real SimOps computes the tables of the model is exact correspondence per generated instance, and the certificate is still evaluated on the real tables']
     return ck.finish(RULE)
 
 
